@@ -134,6 +134,24 @@ def _run_spec_all(item):
         res["violations"].append(dict(key=f"spec_all:exception:{type(e).__name__}", what=f"{item['date']}: all rounded rules together raise {type(e).__name__}: {str(e)[:200]}", date=item["date"]))
         return res
     res["rules_together"] = len(specs)
+    # the caller's params are untouched and a second call with the same objects gives the same columns
+    import copy as _copy
+
+    snap = _copy.deepcopy(params)
+    try:
+        with warnings.catch_warnings():
+            warnings.simplefilter("ignore")
+            out2 = env.compute_taxes_and_transfers(data, params, f2, targets=sorted(specs), rounding=True)
+        for nm in specs:
+            if not np.array_equal(out[nm].to_numpy(), out2[nm].to_numpy()):
+                res["violations"].append(dict(key=f"{nm}:second_call_differs", what=f"{nm} at {item['date']}: a second call with the same params object "
+                                                                                   f"rounds differently ({out[nm].iloc[3]!r} then {out2[nm].iloc[3]!r})", date=item["date"]))
+                break
+    except Exception as e:  # noqa: BLE001
+        res["violations"].append(dict(key="second_call:exception", what=f"{item['date']}: second call with the same params raises {type(e).__name__}: {str(e)[:120]}", date=item["date"]))
+    bad = env.deep_equal(snap, params, "params")
+    if bad:
+        res["violations"].append(dict(key="rounding:mutates_params", what=f"{item['date']}: rounding modified the caller's params: {bad[:200]}", date=item["date"]))
     for nm, (arg, spec) in specs.items():
         base, direction, offset = spec["base"], spec["direction"], spec.get("to_add_after_rounding", 0)
         for xi, ri in zip(data[arg].to_numpy(), out[nm].to_numpy().astype(float)):
